@@ -89,6 +89,17 @@ def run_unit(args):
                     # may be an artefact of that abstraction -> undecided, never a violation
                     r["status"] = "undecided"
                     r["reason"] = "counter-model relies on uninterpreted reductions over a symbolic extent and did not reproduce natively (possible artefact of the abstraction)"
+            elif r["status"] == "discharged" and rp is not None and (tier == "thorough" or os.environ.get("LVC_SELFTEST_REPLAYS")) and time.time() - t0 < 900:
+                # cross-check of prover against CPython: on a discharged obligation the native replay route must not find a failing input
+                try:
+                    rr = rp(None)
+                    r["native_crosscheck"] = "agrees" if not rr.get("reproduced") else "DISAGREES"
+                    if rr.get("reproduced"):
+                        r["status"] = "error"
+                        r["reason"] = "obligation discharged but its native replay route finds a failing input: prover or replay route is wrong"
+                        r["replay_result"] = _jsonable(rr)
+                except Exception as e:
+                    r["native_crosscheck"] = f"replay crashed: {type(e).__name__}: {str(e)[:200]}"
             out["results"].append(_jsonable(dict(r)))
         out["functions"] = sorted(S.functions)
         out["assumed"] = sorted(S.assumed)
